@@ -579,13 +579,17 @@ EXPLANATION = (
     'header comment, per entry any interleaving of # / #. / #: / #, / #| lines with #| "..." continuations and noise lines, msgctxt? msgid (msgstr | msgid_plural msgstr[0..N<=9]) '
     'behind #~ or not, cuts anywhere between characters, padding -> polib\'s line loop yields exactly header comment and per entry msgctxt, msgid, msgid_plural, msgstr, indexed '
     'plurals, flags, obsolete, previous_*, occurrences, extracted and translator comments, in order); comments_attributed; codecs_open_keeps_body, phys_lines (Codecs.open); '
+    'load_render_partial (END TO END from Spec.render: for every Valid FileSp and every ASCII-compatible charset satisfying CodecOk that can encode its text, polib.pofile(path, encoding) '
+    'on the rendered BYTES yields the catalog - no hypothesis about the file), load_render_detected_partial + detect_header_general (charset detected; header forms with any parameters in which '
+    '" charset=" cannot start), load_sequence_independent + load_after_any_history (a list of files in one process = the list of single loads); '
     'load_spells_file_partial (decode + Codecs.open + line loop composed for every CatalogSp: hypotheses only about the file - it decodes, its lines are body ++ held-back tail, body '
     'normalises to the spelling) with codecs_open_holds_trailing (noise and first-column comments are held back); translated_iff; regex_pins; witnesses of the repaired '
     'defects (trailing_ignored_comment_witness for ed9c45c, unescape_octal_fix for 9de4551). REFUTED by kernel-evaluated witnesses and recorded as OPEN findings, replayed on the real '
     'loader each run: load_spells_refuted (a continuation cut between the escaped bytes of one character is a syntax error), detect_first_match_refuted (the charset of the first line '
     'matching polib\'s detect_encoding pattern wins, e.g. a comment). detect_header + load_spells_detected_partial: polib.pofile(path) itself (detection, decode, Codecs.open, line loop) yields the '
-    'catalog when the first line matching polib\'s pattern is the header\'s "Content-Type: text/plain; charset=NAME line. OUTSTANDING: the file-side hypotheses of that theorem are not derived '
-    'from a rendering function CatalogSp -> bytes; other header forms are tied by po-detect only; linenum is projected away. polib itself is third-party code '
+    'catalog when the first line matching polib\'s pattern is the header\'s "Content-Type: text/plain; charset=NAME line. OUTSTANDING: the byte-level precondition of charset detection (first matching byte line = the header\'s '
+    'Content-Type line) cannot follow from the spelling alone; FileSp takes comments in normal form (#text is normalised by Codecs.open: load_spells_file_partial); linenum is projected away. '
+    'History independence is tied by po-load-sequence and the sequence falsifier (fresh-process re-run + history shrinking). polib itself is third-party code '
     'modelled by hand: its tie is the correspondence (transition table regenerated each run). Excluded spellings: msgstr[N] N>=10, octal above \\377, two string tokens on one line, '
     'translator comments of the first entry (they are the header comment).')
 
